@@ -1,5 +1,6 @@
 (* C02 -- sparse cases run only what was asked and leave every other slot missing. *)
 From XV Require Import Prelude Grid Perm Runner RunnerInst GridProofs PermProofs RunnerProofs.
+From XV Require Flow GenRunner BridgeRunner.
 From Coq Require Import Permutation Sorting.Sorted.
 Open Scope Z_scope.
 
@@ -94,6 +95,20 @@ Example C02_example_out :
     = Some (VL [VS "hole"; VL [VS "nantuple"; VL []; VL []]]).
 Proof. vm_compute. split; reflexivity. Qed.
 
+(* tie to the code: how argument names and value tuples are read off dict cases (by name, in the key order of
+   the first case), the overlap guard placed before anything is enumerated or run, the iterative nest builder and
+   the duplicate test are the transcribed ones; the run / results / info data flow is regenerated (GenRunner) *)
+Theorem C02_code_tie :
+  GenRunner.gen_prologue_is_transcribed = true /\ GenRunner.gen_unflatten_is_transcribed = true
+  /\ GenRunner.gen_duplicates_rejected_by_equality = true
+  /\ (forall (R : Type) (f : kwargs -> R) i,
+        Flow.interp f i (BridgeRunner.run_prov i) = Flow.DS (run_order i)).
+Proof.
+  split; [exact BridgeRunner.bridge_prologue|]. split; [exact (proj1 BridgeRunner.bridge_flags)|].
+  split; [exact BridgeRunner.bridge_duplicates|]. intros. apply BridgeRunner.bridge_run.
+Qed.
+
+Print Assumptions C02_code_tie.
 Print Assumptions C02_calls_exact.
 Print Assumptions C02_grid_spans_union.
 Print Assumptions C02_requested_slot.
